@@ -188,14 +188,44 @@ func libGoroutines() int {
 	n := runtime.Stack(buf, true)
 	cnt := 0
 	for _, g := range strings.Split(string(buf[:n]), "\n\n") {
-		if strings.Contains(g, "gomavlib/v3.") || strings.Contains(g, "gomavlib/v3/pkg") {
-			if strings.Contains(g, "main.") && !strings.Contains(g, "created by github.com/bluenviron/gomavlib") {
-				continue // a harness goroutine calling into the library
-			}
+		if isLibGoroutine(g) {
 			cnt++
 		}
 	}
 	return cnt
+}
+
+// first library frame of every library goroutine still alive
+func libGoroutineTops() []string {
+	buf := make([]byte, 1<<20)
+	n := runtime.Stack(buf, true)
+	var tops []string
+	for _, g := range strings.Split(string(buf[:n]), "\n\n") {
+		if !isLibGoroutine(g) {
+			continue
+		}
+		for _, l := range strings.Split(g, "\n") {
+			if strings.Contains(l, "gomavlib/v3") || strings.Contains(l, "pion/") {
+				if i := strings.LastIndexByte(l, '('); i > 0 {
+					l = l[:i]
+				}
+				tops = append(tops, strings.TrimSpace(l))
+				break
+			}
+		}
+	}
+	return tops
+}
+
+func isLibGoroutine(g string) bool {
+	if strings.Contains(g, "gomavlib/v3.") || strings.Contains(g, "gomavlib/v3/pkg") || strings.Contains(g, "github.com/pion/") {
+		if strings.Contains(g, "main.") && !strings.Contains(g, "created by github.com/bluenviron/gomavlib") &&
+			!strings.Contains(g, "created by github.com/pion/") {
+			return false // a harness goroutine calling into the library
+		}
+		return true
+	}
+	return false
 }
 
 func waitNoLibGoroutines(d time.Duration) int {
